@@ -116,3 +116,13 @@ Theorem C08_reference_shard_is_history_independent : forall size lg, permitted s
   serialize_node size HashMurmur3 (pad_len size) (BShard t1) = serialize_node size HashMurmur3 (pad_len size) (BShard t2).
 Proof. exact ref_history_independent. Qed.
 Print Assumptions C08_reference_shard_is_history_independent.
+
+(* in particular, inserting a fresh name into a reference shard and removing it again restores the shard byte for byte *)
+Theorem C08_reference_set_then_remove_is_identity : forall size lg, permitted size lg ->
+  forall H : bytes -> bytes, (forall k, wf_bytes (H k) = true) -> (forall k, length (H k) = 8%nat) ->
+  forall fuel ops e t t',
+  Forall (hop_ok H) ops -> entry_ok H e -> ~ In (e_name e) (map e_name (mrun ops)) ->
+  hrun lg fuel ops = Ok t -> hrun lg fuel (ops ++ [HSet e; HDel (e_name e) (H (e_name e))]) = Ok t' ->
+  serialize_node size HashMurmur3 (pad_len size) (BShard t') = serialize_node size HashMurmur3 (pad_len size) (BShard t).
+Proof. exact ref_set_remove_roundtrip. Qed.
+Print Assumptions C08_reference_set_then_remove_is_identity.
